@@ -44,7 +44,7 @@ def geometry_violation(doc, impl_out):
 class C03(PropCheck):
     id = 'C03'
     extractors = ()
-    modules = ('WpModel.Props.C03', 'WpModel.Props.C03Trace')
+    modules = ('WpModel.Props.C03', 'WpModel.Props.C03Geo', 'WpModel.Props.C03Trace')
     trusted_base = (
         'modelled, not verified: the block/line pagination functions of block.py and page.py as '
         'lean/WpModel/Model/Paginate.lean (see C01)',
